@@ -144,3 +144,110 @@ macro_rules! c15_for_crate {
 c15_for_crate!(tcp, huginn_net_tcp);
 c15_for_crate!(http, huginn_net_http);
 c15_for_crate!(tls, huginn_net_tls);
+
+/// the unified analyzer: its own packet_parser copy (returns slices; process.rs builds the pnet
+/// views from them) together with the TCP crate's raw filter, which `HuginnNet` applies first
+pub mod unified {
+    use super::*;
+    use huginn_net::packet_parser::{parse_packet, IpPacket};
+    use huginn_net_tcp::filter::{FilterConfig, FilterMode, IpFilter, PortFilter, SubnetFilter};
+    use huginn_net_tcp::raw_filter;
+    use pnet::packet::ipv4::Ipv4Packet;
+    use pnet::packet::ipv6::Ipv6Packet;
+
+    fn endpoints_v4(frame: &[u8]) -> Option<(u32, u32, u16, u16)> {
+        match parse_packet(frame) {
+            IpPacket::Ipv4(data) => {
+                let ip = Ipv4Packet::new(data)?;
+                if ip.get_next_level_protocol() != IpNextHeaderProtocols::Tcp {
+                    return None;
+                }
+                let tcp = TcpPacket::new(ip.payload())?;
+                Some((u32::from(ip.get_source()), u32::from(ip.get_destination()), tcp.get_source(), tcp.get_destination()))
+            }
+            _ => None,
+        }
+    }
+
+    fn endpoints_v6(frame: &[u8]) -> Option<(u128, u128, u16, u16)> {
+        match parse_packet(frame) {
+            IpPacket::Ipv6(data) => {
+                let ip = Ipv6Packet::new(data)?;
+                if ip.get_next_header() != IpNextHeaderProtocols::Tcp {
+                    return None;
+                }
+                let tcp = TcpPacket::new(ip.payload())?;
+                Some((u128::from(ip.get_source()), u128::from(ip.get_destination()), tcp.get_source(), tcp.get_destination()))
+            }
+            _ => None,
+        }
+    }
+
+    fn exact_v4(deny: bool, s: u32, d: u32, sp: u16, dp: u16) -> FilterConfig {
+        let mut ipf = IpFilter::new().source_only();
+        ipf.ipv4_addresses.push(Ipv4Addr::from(s));
+        let mut nf = SubnetFilter::new().destination_only();
+        nf.ipv4_subnets.push(Ipv4Network::new(Ipv4Addr::from(d), 32).unwrap());
+        FilterConfig::new()
+            .mode(if deny { FilterMode::Deny } else { FilterMode::Allow })
+            .with_port_filter(PortFilter::new().source(sp).destination(dp))
+            .with_ip_filter(ipf)
+            .with_subnet_filter(nf)
+    }
+
+    fn exact_v6(deny: bool, s: u128, d: u128, sp: u16, dp: u16) -> FilterConfig {
+        let mut ipf = IpFilter::new().source_only();
+        ipf.ipv6_addresses.push(Ipv6Addr::from(s));
+        let mut nf = SubnetFilter::new().destination_only();
+        nf.ipv6_subnets.push(Ipv6Network::new(Ipv6Addr::from(d), 128).unwrap());
+        FilterConfig::new()
+            .mode(if deny { FilterMode::Deny } else { FilterMode::Allow })
+            .with_port_filter(PortFilter::new().source(sp).destination(dp))
+            .with_ip_filter(ipf)
+            .with_subnet_filter(nf)
+    }
+
+    #[kani::proof]
+    #[kani::unwind(20)]
+    pub fn c15_agree_v4_64() {
+        let buf: [u8; 64] = kani::any();
+        let len: usize = kani::any();
+        kani::assume(len <= 64);
+        let frame = &buf[..len];
+        let e = endpoints_v4(frame);
+        let (s, d, sp, dp) = e.unwrap_or((0, 0, 0, 0));
+        let allow = exact_v4(false, s, d, sp, dp);
+        let deny = exact_v4(true, s, d, sp, dp);
+        let a = raw_filter::apply(frame, &allow);
+        let b = raw_filter::apply(frame, &deny);
+        kani::cover!(e.is_some(), "unified analyzer decodes a TCP segment");
+        if e.is_some() {
+            assert!(a, "C15 filter admits the endpoints the analyzer reports (allow-list of exactly them)");
+            assert!(!b, "C15 filter rejects the endpoints the analyzer reports (deny-list of exactly them)");
+        }
+        core::mem::forget(allow);
+        core::mem::forget(deny);
+    }
+
+    #[kani::proof]
+    #[kani::unwind(20)]
+    pub fn c15_agree_v6_84() {
+        let buf: [u8; 84] = kani::any();
+        let len: usize = kani::any();
+        kani::assume(len >= 40 && len <= 84);
+        let frame = &buf[..len];
+        let e = endpoints_v6(frame);
+        let (s, d, sp, dp) = e.unwrap_or((0, 0, 0, 0));
+        let allow = exact_v6(false, s, d, sp, dp);
+        let deny = exact_v6(true, s, d, sp, dp);
+        let a = raw_filter::apply(frame, &allow);
+        let b = raw_filter::apply(frame, &deny);
+        kani::cover!(e.is_some(), "unified analyzer decodes a TCP segment");
+        if e.is_some() {
+            assert!(a, "C15 filter admits the endpoints the analyzer reports (allow-list of exactly them)");
+            assert!(!b, "C15 filter rejects the endpoints the analyzer reports (deny-list of exactly them)");
+        }
+        core::mem::forget(allow);
+        core::mem::forget(deny);
+    }
+}
